@@ -404,8 +404,26 @@ type TSN struct {
 
 func (TSN) TableName() string { return "tss" }
 
+// TSZ: the column has a non-NULL zero value: live rows hold '1970-01-01 00:00:01' (own table).
+type TSZ struct {
+	ID        int64 `gorm:"primaryKey"`
+	Age       int64
+	Name      string
+	Nick      *string
+	Mark      int64
+	DeletedAt gorm.DeletedAt `gorm:"zeroValue:1970-01-01 00:00:01;default:'1970-01-01 00:00:01'"`
+}
+
+func (TSZ) TableName() string { return "tsz" }
+
+// ZeroValueLive is what the column of a live TSZ row holds.
+const ZeroValueLive = "1970-01-01 00:00:01"
+
 // SoftVariants: name -> zero value of the model type.
-var SoftVariants = map[string]interface{}{"": TS{}, "ptr": TSP{}, "embedded": TSE{}, "named": TSN{}}
+var SoftVariants = map[string]interface{}{"": TS{}, "ptr": TSP{}, "embedded": TSE{}, "named": TSN{}, "zerovalue": TSZ{}}
+
+// SoftVariant selects the soft-delete model NewModel / NewSlice / Table use (with UseSoft).
+var SoftVariant string
 
 // NewOne / NewSlice / IDsOf / IDOf: reflection helpers so that a harness can run one protocol over
 // every variant.
@@ -432,6 +450,9 @@ var UseSoft bool
 
 func Table() string {
 	if UseSoft {
+		if SoftVariant == "zerovalue" {
+			return "tsz"
+		}
 		return "tss"
 	}
 	return "ts"
@@ -440,13 +461,13 @@ func Table() string {
 // NewModel returns a pointer to a zero model value, NewSlice a pointer to an empty slice.
 func NewModel() interface{} {
 	if UseSoft {
-		return &TS{}
+		return NewSoftOne(SoftVariant)
 	}
 	return &T{}
 }
 func NewSlice() interface{} {
 	if UseSoft {
-		return &[]TS{}
+		return NewSoftSlice(SoftVariant)
 	}
 	return &[]T{}
 }
